@@ -289,6 +289,35 @@ func checkC13(c *Check) {
 	}
 	c.notFoundClassifier(run)
 	c.inventoryClientRules("R4")
+	c.cancelBeforeDrain("R5", run)
+	// the close-bid (and every other) transaction of the order monitor is broadcast under a context that ends only when
+	// the monitor cancels it: a context with a deadline has always expired by the time the clean-up runs after a bid
+	// timeout, and the broadcaster then submits nothing
+	nb := 0
+	for _, g := range fnAndClosuresDeep(run) {
+		for _, call := range callsInOwn(g) {
+			if calleeMethod(call) != "Broadcast" {
+				continue
+			}
+			nb++
+			a := userArgs(call)
+			cs := Sym(a[0])
+			// a captured context: what the enclosing function stored into the captured variable
+			if ld, isLd := a[0].(*ssa.UnOp); isLd {
+				if fv, isFV := ld.X.(*ssa.FreeVar); isFV {
+					cs = ""
+					for _, v := range capturedStores(fv) {
+						cs += Sym(v) + " | "
+					}
+				}
+			}
+			okCtx := !strings.Contains(cs, "context.WithTimeout(") && !strings.Contains(cs, "context.WithDeadline(") && (strings.Contains(cs, "context.WithCancel(") || strings.Contains(cs, "context.Background("))
+			c.Ob("R4", "transaction #"+itoa(nb)+" of the order monitor is broadcast under a context without a deadline", call.Pos(), okCtx, "context "+short(cs)+": a deadline that has passed makes the broadcaster drop the close-bid transaction, the bid stays open")
+		}
+	}
+	if nb < 2 {
+		c.Fail("C13-R4 lost instances: %d broadcasts", nb)
+	}
 }
 
 // notFoundClassifier (R1): the text pattern that turns a failed existing-bid query into "no bid yet" must single out
@@ -402,4 +431,39 @@ func (c *Check) notFoundClassifier(run *ssa.Function) {
 	if n != 1 {
 		c.Ob("R1", "existing-bid query: exactly one error classifier", run.Pos(), false, "sites: "+itoa(n))
 	}
+}
+
+// capturedStores: the values stored (in the enclosing function) into the variable a closure captures as fv.
+func capturedStores(fv *ssa.FreeVar) []ssa.Value {
+	g := fv.Parent()
+	if g == nil || g.Parent() == nil {
+		return nil
+	}
+	idx := -1
+	for i, f := range g.FreeVars {
+		if f == fv {
+			idx = i
+		}
+	}
+	var bound ssa.Value
+	eachInstr(g.Parent(), func(i ssa.Instruction) {
+		if mc, ok := i.(*ssa.MakeClosure); ok && mc.Fn == ssa.Value(g) && idx >= 0 && idx < len(mc.Bindings) {
+			bound = mc.Bindings[idx]
+		}
+	})
+	switch b := bound.(type) {
+	case *ssa.Alloc:
+		var out []ssa.Value
+		if b.Referrers() != nil {
+			for _, r := range *b.Referrers() {
+				if st, ok := r.(*ssa.Store); ok && st.Addr == ssa.Value(b) {
+					out = append(out, st.Val)
+				}
+			}
+		}
+		return out
+	case *ssa.FreeVar:
+		return capturedStores(b)
+	}
+	return nil
 }
